@@ -13,3 +13,9 @@ def uninstallOrder : List String := ["ValidatingWebhookConfiguration", "Mutating
 def hookEvents : List (String × String) := [("post-delete", "post-delete"), ("post-install", "post-install"), ("post-rollback", "post-rollback"), ("post-upgrade", "post-upgrade"), ("pre-delete", "pre-delete"), ("pre-install", "pre-install"), ("pre-rollback", "pre-rollback"), ("pre-upgrade", "pre-upgrade"), ("test", "test"), ("test-success", "test")]
 
 end Helm.Spec
+
+namespace Helm.Spec
+/-- Order in which `Options.MergeValues` applies the value-flag families (later wins):
+-f files < --set-json < --set < --set-string < --set-file < --set-literal. -/
+def valueFlagOrder : List String := ["ValueFiles", "JSONValues", "Values", "StringValues", "FileValues", "LiteralValues"]
+end Helm.Spec
